@@ -111,3 +111,28 @@ pub fn expand_ref(s: &str, lookup: &dyn Fn(&str) -> Option<String>) -> String {
     }
     out
 }
+
+/// A directory on a *different* filesystem than `dir` (for cross-device renames), unique per `dir`;
+/// None when the sandbox offers no second writable filesystem.
+pub fn other_fs_dir(dir: &Path) -> Option<std::path::PathBuf> {
+    use std::os::unix::fs::MetadataExt;
+    let here = std::fs::metadata(dir).ok()?.dev();
+    for cand in ["/tmp", "/dev/shm", "/var/tmp"] {
+        let Ok(m) = std::fs::metadata(cand) else { continue };
+        if m.dev() != here {
+            let h = crate::engine::fnv64(dir.to_string_lossy().as_bytes());
+            let p = std::path::PathBuf::from(format!("{}/lv-alt-{}/{:016x}", cand, std::process::id(), h));
+            if std::fs::create_dir_all(&p).is_ok() {
+                return Some(p);
+            }
+        }
+    }
+    None
+}
+
+/// Removes this process's directories on the other filesystems.
+pub fn cleanup_other_fs() {
+    for cand in ["/tmp", "/dev/shm", "/var/tmp"] {
+        let _ = std::fs::remove_dir_all(format!("{}/lv-alt-{}", cand, std::process::id()));
+    }
+}
